@@ -5,7 +5,10 @@ from . import hashing, manifest, mfparts, overlay, record, skeleton, skelinfo
 def build(reg):
     record.add_record_bindings(reg)
     specs = manifest.add_manifest(reg) + skeleton.add_skeleton(reg) + skeleton.add_skeleton_base(reg) + overlay.add_writers(reg) + mfparts.add_mfparts(reg) + skelinfo.add_skelinfo(reg)  # what a patch written on a stub records must not depend on hidden older containers
-    return {"verify": specs, "lemmas": [("stub-chain-continuation", lemma_stub)], "trusted": hashing.TRUSTED + [manifest.T5_MF, record.T5_COPY] + skeleton.T_SKEL + mfparts.T_MFP + skelinfo.T_SKI, "assumptions": ["IH5Record.commit_patch is represented by its C02 contract (refuses with ValueError without effect, or commits the newest container)"]}
+    from . import oneliners
+
+    specs = specs + oneliners.add_oneliners(reg, props=("C10",))  # one- and two-line delegations, verified against what other contracts bind them to
+    return {"verify": specs, "lemmas": [("stub-chain-continuation", lemma_stub)], "trusted": oneliners.T_ONE + hashing.TRUSTED + [manifest.T5_MF, record.T5_COPY] + skeleton.T_SKEL + mfparts.T_MFP + skelinfo.T_SKI, "assumptions": ["IH5Record.commit_patch is represented by its C02 contract (refuses with ValueError without effect, or commits the newest container)"]}
 
 
 def lemma_stub():
